@@ -2,6 +2,7 @@ import MoneroModel.Proofs.ExtraEqns
 import MoneroModel.Proofs.VarIntImp
 import MoneroModel.Spec.Extra
 import MoneroModel.Drv.C16
+import MoneroModel.Gen.Codec
 open Monero Monero.Extra
 
 /-! The model's encoder is the independent by-the-book layout (`Spec.Extra.layout` / `serialise`, through the driver's
@@ -135,6 +136,37 @@ theorem prefix_isSome_iff (p : Prefix) (e r : Bytes) (hp : wfPrefix p) (hl : e.l
   cases vec sizes.u8 u8 (encVarint e.length ++ e ++ r) with
   | none => simp
   | some x => simp [pure']
+
+/-! ### the tag bytes of the model are those of the regenerated tables -/
+
+def variantOf : SubField → SubFieldV
+  | .padding _ => .Padding
+  | .txPub _ => .TxPublicKey
+  | .nonce _ => .Nonce
+  | .mergeMining _ _ => .MergeMining
+  | .addKeys _ => .AdditionalPublickKey
+  | .minerGate _ => .MysteriousMinerGate
+
+theorem encSub_tag (sf : SubField) :
+    (encSub sf).head? = (Gen.subFieldEncode.lookup (variantOf sf)).map UInt8.ofNat := by
+  cases sf <;> rfl
+
+theorem subFieldRd_tag (vk : Bytes → Bool) (b : Bytes) (sf : SubField) (r : Bytes)
+    (h : subFieldRd vk b = (some sf, r)) :
+    ∃ t rest, b = t :: rest ∧ (t.toNat, variantOf sf) ∈ Gen.subFieldDecode := by
+  obtain ⟨_, _, sz, hb⟩ := subFieldRd_sound vk b sf r h
+  cases sf <;> exact ⟨_, _, by rw [hb]; rfl, by simp only [variantOf]; decide⟩
+
+theorem subFieldRd_unknown_tag (vk : Bytes → Bool) (t : UInt8) (xs : Bytes)
+    (h : ∀ v, (t.toNat, v) ∉ Gen.subFieldDecode) : subFieldRd vk (t :: xs) = (none, xs) := by
+  have ne : ∀ (c : UInt8) (v : SubFieldV), (c.toNat, v) ∈ Gen.subFieldDecode → t ≠ c := by
+    intro c v hm ht; subst ht; exact h v hm
+  rw [subFieldRd_cons]
+  unfold afterTag
+  rw [if_neg (ne 0x00 .Padding (by decide)), if_neg (ne 0x01 .TxPublicKey (by decide)),
+    if_neg (ne 0x02 .Nonce (by decide)), if_neg (ne 0x03 .MergeMining (by decide)),
+    if_neg (ne 0x04 .AdditionalPublickKey (by decide)), if_neg (ne 0xde .MysteriousMinerGate (by decide))]
+  rfl
 
 /-! ### the driver's key validity -/
 
